@@ -1,6 +1,7 @@
 package main
 
 import (
+	"sort"
 	"bytes"
 	"fmt"
 	"strings"
@@ -50,10 +51,12 @@ func init() {
 		if err != nil {
 			return nil, err
 		}
-		l.Labels = nil
+		var ed []string
 		for _, n := range a[1:] {
-			l.Labels = append(l.Labels, string(n))
+			ed = append(ed, string(n))
 		}
+		_ = l.ToBytes() // encoding before the edit must not pin the old names
+		applyEdit(l, ed)
 		return [][]byte{l.ToBytes()}, nil
 	})
 	props["C19"] = genC19
@@ -258,7 +261,14 @@ func genC19(r *Run) {
 			// 4. single edits of a parsed set
 			if pl, err := rfc1035label.FromBytes(m); err == nil {
 				ed := append([]string{}, pl.Labels...)
-				switch r.Rng.Intn(3) {
+				switch r.Rng.Intn(5) {
+				case 3: // same names in another order
+					if len(ed) > 1 {
+						i, j := r.Rng.Intn(len(ed)), r.Rng.Intn(len(ed))
+						ed[i], ed[j] = ed[j], ed[i]
+					}
+				case 4:
+					sort.Strings(ed)
 				case 0:
 					ed = append(ed, "new.name")
 				case 1:
@@ -352,13 +362,35 @@ func checkLabelDecode(r *Run, b []byte) {
 	}
 }
 
+// applyEdit turns l.Labels into ed the way a caller would: in place where the shape allows it
+// (element assignment, reslicing, append), by replacing the slice otherwise.
+func applyEdit(l *rfc1035label.Labels, ed []string) {
+	cur := l.Labels
+	switch {
+	case len(ed) == len(cur):
+		for i := range ed {
+			if cur[i] != ed[i] {
+				cur[i] = ed[i]
+			}
+		}
+	case len(ed) == len(cur)-1 && sameStrs(cur[1:], ed):
+		l.Labels = cur[1:]
+	case len(ed) > len(cur) && sameStrs(ed[:len(cur)], cur):
+		l.Labels = append(cur, ed[len(cur):]...)
+	default:
+		l.Labels = append([]string{}, ed...)
+	}
+}
+
 func checkLabelEdit(r *Run, b []byte, ed []string) {
 	l, err := rfc1035label.FromBytes(append([]byte{}, b...))
 	if err != nil {
 		return
 	}
 	orig := append([]string{}, l.Labels...)
-	l.Labels = ed
+	_ = l.ToBytes()
+	_ = l.Length()
+	applyEdit(l, append([]string{}, ed...))
 	out := l.ToBytes()
 	fresh := (&rfc1035label.Labels{Labels: ed}).ToBytes()
 	if sameStrs(orig, ed) {
